@@ -119,6 +119,9 @@ def cases(tier, seed):
                 dens = rng.sample([g for g in grades if g], 2) + [list(pat.RND(d, 1, rng, max_len=3, min_len=1)[0])]
                 nums = [list(g) for g in rng.sample([g for g in grades if g], min(2, len([g for g in grades if g])))]
                 out.append(dict(kind='div-history', cfg=cfg, route=route, ka=ka, dens=[list(x) for x in dens], nums=nums))
+    # "to rounding otherwise": concrete python floats, well-conditioned operands (condition number <= 2e4), d = 3 .. 7
+    for d in (3, 4, 5, 6, 7):
+        out.append(dict(kind='float-accuracy', cfg=dict(p=d)))
     if tier == 'thorough':
         for ka in pat.RND(8, 8, rng, max_len=2, min_len=1, order=list(range(256))):
             add('inv', dict(p=5, q=2, r=1), ka)
@@ -196,7 +199,32 @@ def _run_div_history(desc, V):
     return claims
 
 
+def _run_float_accuracy(desc):
+    """sampling on concrete floats (stated as such): x = s * (1 + t e1) has the exact inverse (1 - t e1) / (s (1 - t^2))."""
+    alg = make_alg(desc['cfg'])
+    d = alg.d
+    claims = [Note('nontrivial', ''), Eq('reached', 1, 1)]
+    for s_ in (1.0, 1e-6, 1e6):
+        for t in (0.5, 0.9, 0.99, 0.999, 0.9999):
+            x = alg.multivector(keys=(0, 1), values=[s_ * 1.0, s_ * t])
+            cond = (1 + t) / (1 - t)
+            tag = f'd={d}'
+            try:
+                xi = x.inv()
+                p_ = x * xi
+            except Exception as e:  # noqa
+                claims.append(Fail(f'float[{s_},{t}]:raises', f'inverse of {s_}*(1 + {t} e1) (condition number {cond:.0f}) in {d}-D raises {type(e).__name__}: {e}',
+                                   fkey=f'inv|float-accuracy|{tag}|raises'))
+                continue
+            err = max([abs(complex(p_.e) - 1)] + [abs(complex(v)) for k, v in zip(p_.keys(), p_.values()) if k != 0])
+            if not err < 1e-6 * cond:
+                claims.append(Fail(f'float[{s_},{t}]', f'x = {s_}*(1 + {t} e1) in {d}-D (condition number {cond:.0f}): |x*x.inv() - 1| = {err:.3g}', fkey=f'inv|float-accuracy|{tag}'))
+    return claims
+
+
 def run_case(desc, V):
+    if desc['kind'] == 'float-accuracy':
+        return _run_float_accuracy(desc)
     if desc['kind'] == 'div-history':
         return _run_div_history(desc, V)
     alg = get_alg(desc['cfg'])
